@@ -253,6 +253,9 @@ def default_nontrivial(inp, out):
     return out not in ("", "err") and not out.startswith("GOPANIC")
 
 
+_HELD = set()
+
+
 def main(argv=None):
     import argparse
     ap = argparse.ArgumentParser()
@@ -262,6 +265,15 @@ def main(argv=None):
     ap.add_argument("--replay", default=None)
     a = ap.parse_args(argv)
     pid = a.pid
+    # one run of a property's check per tree at a time: runs share the built binaries and the run directory
+    key = "check_" + pid + ("" if REPO == "/repo" else "_" + hashlib.sha1(REPO.encode()).hexdigest()[:8])
+    if key not in _HELD:
+        with Lock(key):
+            _HELD.add(key)
+            try:
+                return main(argv)
+            finally:
+                _HELD.discard(key)
     sys.path.insert(0, os.path.join(ROOT, "check", "props"))
     mod = importlib.import_module(pid)
     spec = mod.SPEC
